@@ -36,7 +36,7 @@ def mandatory_bins(tier):
     return [
         "empty_dict", "delete_key", "delete_value", "set_value", "merged_group", "multi_block", "block_size_115", "block_size_116", "block_size_117",
         "single_entry_116", "single_entry_117", "single_entry_118_oversize", "oversize_first", "oversize_middle", "oversize_last",
-        "unrepresentable_refused_or_encoded", "extra_blocks", "content_len_0", "content_len_254", "key_0", "key_ffff", "vid_0", "vid_fe", "all_fit", "set_config_replaces_older_configuration_with_other_tags", "description_of_an_earlier_configuration_component_edited_by_the_caller",
+        "unrepresentable_refused_or_encoded", "extra_blocks", "content_len_0", "content_len_254", "key_0", "key_ffff", "vid_0", "vid_fe", "all_fit", "set_config_replaces_older_configuration_with_other_tags", "description_of_an_earlier_configuration_component_edited_by_the_caller", "extra_blocks_given_as_one_shot_iterator", "extra_blocks_given_as_generator",
     ]
 
 
@@ -77,7 +77,21 @@ def judge(ns, ctx, conf, extras, via):
                 pre = True
                 f.components.append(BF.Bf3Component({0xC3: b"\x03", 0xC2: b"\x00", 0xC1: b"\x00", 0xC5: b"\x00", 0xC9: b"\x01\x01\x00\x9b"}, b"old configuration", None, False))
                 ctx.bin("set_config_replaces_older_configuration_with_other_tags")
-            f.set_config(dict(conf), list(extras)) if extras else f.set_config(dict(conf))
+            if extras:
+                how = len(conf) % 4
+                if how == 1:
+                    xs = tuple(extras)
+                elif how == 2:
+                    xs = iter(list(extras))  # one-shot iterables are Iterable[bytes] too
+                    ctx.bin("extra_blocks_given_as_one_shot_iterator")
+                elif how == 3:
+                    xs = (b_ for b_ in list(extras))
+                    ctx.bin("extra_blocks_given_as_generator")
+                else:
+                    xs = list(extras)
+                f.set_config(dict(conf), xs)
+            else:
+                f.set_config(dict(conf))
             ctx.mon("set_config")
             comp = f.components[-1]
             blob = comp.blob
